@@ -4,7 +4,9 @@
 //! Stream (selected with VERIF_STREAM):
 //!   c42_est — random op sequences on a real `EstimatorState<StdKalmanStorage<()>>`: add/remove clocks,
 //!             external clocks and links (fresh, duplicate and unknown ids), measurements, time steps,
-//!             steer absorptions.  After every op the full table `id ↦ (value, uncertainty)` of every
+//!             steer absorptions; `progressd d=<n>` = progress_time to (current time + n raw units of 2^-64 s),
+//!             n = 0, ±1, ±2, … around ±4096 (= 2^-52 s = f64::EPSILON seconds), also after large forward steps and at
+//!             huge absolute times.  After every op the full table `id ↦ (value, uncertainty)` of every
 //!             pool clock (offset and frequency) and every pool link (delay) is dumped through the
 //!             public queries; the Lean model must print the same bits.
 //!   The oracle evaluates C42 on the implementation alone (tables before/after each op).
@@ -49,6 +51,23 @@ pub(crate) fn dur_raw(d: Duration) -> i128 {
         -(out as i128)
     } else {
         out as i128
+    }
+}
+
+/// the `Duration` with the given raw value (2^-64 s units), through public arithmetic only
+pub(crate) fn raw_dur(raw: i128) -> Duration {
+    let two32: u64 = 1 << 32;
+    let unit = Duration::from_seconds_nanos(1, 0) / two32 / two32;
+    let mag = raw.unsigned_abs();
+    let mut acc = Duration::ZERO;
+    for i in (0..4).rev() {
+        let chunk = ((mag >> (32 * i)) & 0xffff_ffff) as u64;
+        acc = acc * two32 + unit * chunk;
+    }
+    if raw < 0 {
+        Duration::ZERO - acc
+    } else {
+        acc
     }
 }
 
@@ -203,6 +222,10 @@ fn gen_case(rng: &mut Rng, idx: u64, _run: &Run) -> Vec<String> {
         ops.push("rmlink l=5 a=0 b=1".to_string());
         ops.push("progress t=10:0".to_string());
         ops.push("progress t=9:999999999".to_string());
+        ops.push("progressd d=-1".to_string());
+        ops.push("progressd d=-4096".to_string());
+        ops.push("progressd d=-4097".to_string());
+        ops.push("progressd d=1".to_string());
         ops.push("mid a=7fefffffffffffff b=0000000000000001".to_string());
         ops.push("mid a=7fefffffffffffff b=7fefffffffffffff".to_string());
         ops.push("mid a=0000000000000001 b=0000000000000001".to_string());
@@ -258,7 +281,26 @@ fn gen_case(rng: &mut Rng, idx: u64, _run: &Run) -> Vec<String> {
             }
             50..=54 => ops.push(format!("addext id={}", rng.usize(0, nc - 1))),
             55..=57 => ops.push(format!("rmext id={}", rng.usize(0, nc - 1))),
-            58..=69 => {
+            58..=61 => {
+                // time steps of a few raw Duration units (2^-64 s) around the 2^-52 s = 4096 units mark,
+                // often right after a large forward step (the f64 view of such a difference is far below
+                // the resolution of the absolute times)
+                if rng.chance(1, 2) {
+                    sec = sec.wrapping_add(if rng.chance(1, 2) { 1 << 40 } else { rng.below(100_000) });
+                    ops.push(format!("progress t={}:{}", sec, nanos));
+                }
+                let k = rng.usize(1, 4);
+                for _ in 0..k {
+                    let mag: i128 = *rng.pick(&[1i128, 2, 3, 1 << 10, (1 << 11) - 1, 1 << 11, 4095, 4096, 4097, 1 << 13, 1 << 20, 1 << 32, 1 << 62]);
+                    let d = match rng.below(8) {
+                        0 => 0,
+                        1 | 2 => mag,
+                        _ => -mag,
+                    };
+                    ops.push(format!("progressd d={}", d));
+                }
+            }
+            62..=69 => {
                 // time step: mostly forward, sometimes equal, sometimes backwards by a hair or a lot
                 match rng.below(10) {
                     0 => {}
@@ -434,6 +476,34 @@ fn exec_case(ops: &[String], run: &mut Run) {
                         run.oracle_fail("monotone_time", "", &format!("time after progress_time({}) is {}", traw, ts_raw(s2.current_time())));
                     }
                 }
+                Some(r)
+            }
+            ["progressd", rest @ ..] => {
+                // progress_time to (current time + d raw units)
+                let Some(d) = kv(rest, "d").and_then(|x| x.parse::<i128>().ok()) else {
+                    run.end_op("bad-op");
+                    continue;
+                };
+                let t = st.current_time() + raw_dur(d);
+                if dur_raw(raw_dur(d)) != d {
+                    run.oracle_fail("harness_raw_dur", "", &format!("raw_dur({}) has raw value {}", d, dur_raw(raw_dur(d))));
+                }
+                let r = st.clone().progress_time(t);
+                // oracle monotone_time, directly on the raw times: a step back (however small) must fail and
+                // leave the time alone; otherwise the new time is the requested one, never an earlier one
+                if (d < 0) != r.is_err() {
+                    run.oracle_fail("monotone_time", "kind=raw_step", &format!("progress_time by {} raw units (2^-64 s): is_err={}", d, r.is_err()));
+                }
+                if let Ok(s2) = &r {
+                    let after = ts_raw(s2.current_time());
+                    if time_before < (1u128 << 127) && after < (1u128 << 127) && after < time_before {
+                        run.oracle_fail("monotone_time", "kind=raw_step", &format!("time moved backwards: {} -> {} (step {} raw units)", time_before, after, d));
+                    }
+                    if after != ts_raw(t) {
+                        run.oracle_fail("monotone_time", "kind=raw_step", &format!("time after progress_time({}) is {}", ts_raw(t), after));
+                    }
+                }
+                run.hit(if d < 0 { if d >= -4096 { "progressd-back-tiny" } else { "progressd-back" } } else if d == 0 { "progressd-equal" } else { "progressd-forward" });
                 Some(r)
             }
             ["meas", rest @ ..] => {
